@@ -150,44 +150,87 @@ def level_of(r):
     return LEVEL.get(r[0], 4)
 
 
-def print_re(r, min_level=0, redundant=None):
-    """Print with the fewest parentheses the grammar allows; `redundant` (a random.Random) adds
-    extra parentheses at random."""
+def print_tokens(r, min_level=0, redundant=None):
+    """Token list of a printing with the fewest parentheses the grammar allows; `redundant`
+    (a random.Random) adds extra parentheses at random. Tokens: ('(',) (')',) ('[',) (']',) ('$',)
+    ('id', name) ('c', cp) ('s', [cps]) ('_',) ('|',) ('*',) ('+',) ('?',) ('#',) ('-',)"""
     t = r[0]
     if t == 'chr':
-        s = char_lit(r[1])
+        toks = [('c', r[1])]
     elif t == 'str':
-        s = str_lit(r[1])
+        toks = [('s', list(r[1]))]
     elif t == 'set':
-        parts = []
+        toks = [('[',)]
         for it in r[1]:
             if it[0] == 'c':
-                parts.append(char_lit(it[1]))
+                toks.append(('c', it[1]))
             else:
-                parts.append(char_lit(it[1]) + '-' + char_lit(it[2]))
-        s = '[' + ' '.join(parts) + ']'
+                toks += [('c', it[1]), ('-',), ('c', it[2])]
+        toks.append((']',))
     elif t == 'any':
-        s = '_'
+        toks = [('_',)]
     elif t == 'eoi':
-        s = '$'
+        toks = [('$',)]
     elif t == 'var':
-        s = '$' + r[1]
+        toks = [('$',), ('id', r[1])]
     elif t == 'bi':
-        s = '$$' + r[1]
+        toks = [('$',), ('$',), ('id', r[1])]
     elif t == 'alt':
-        s = print_re(r[1], 0, redundant) + ' | ' + print_re(r[2], 1, redundant)
+        toks = print_tokens(r[1], 0, redundant) + [('|',)] + print_tokens(r[2], 1, redundant)
     elif t == 'cat':
-        s = print_re(r[1], 1, redundant) + ' ' + print_re(r[2], 2, redundant)
+        toks = print_tokens(r[1], 1, redundant) + print_tokens(r[2], 2, redundant)
     elif t in ('star', 'plus', 'opt'):
         op = {'star': '*', 'plus': '+', 'opt': '?'}[t]
-        s = print_re(r[1], 2, redundant) + op
+        toks = print_tokens(r[1], 2, redundant) + [(op,)]
     elif t == 'diff':
-        s = print_re(r[1], 3, redundant) + ' # ' + print_re(r[2], 4, redundant)
+        toks = print_tokens(r[1], 3, redundant) + [('#',)] + print_tokens(r[2], 4, redundant)
     else:
         raise ValueError(r)
     if level_of(r) < min_level or (redundant is not None and redundant.random() < 0.25):
-        s = '(' + s + ')'
-    return s
+        toks = [('(',)] + toks + [(')',)]
+    return toks
+
+
+def render_tokens(toks):
+    out = []
+    for i, t in enumerate(toks):
+        k = t[0]
+        if k == 'c':
+            out.append(char_lit(t[1]))
+        elif k == 's':
+            out.append(str_lit(t[1]))
+        elif k == 'id':
+            out.append(t[1])
+        else:
+            out.append(k)
+    # `$` binds to a following `$` or identifier without a space; everything else is separated
+    text = ''
+    for i, w in enumerate(out):
+        if i > 0 and not (toks[i - 1][0] == '$' and toks[i][0] in ('$', 'id')):
+            text += ' '
+        text += w
+    return text
+
+
+def tokens_for_lean(toks):
+    out = []
+    for t in toks:
+        k = t[0]
+        if k == 'c':
+            out.append('c:%d' % t[1])
+        elif k == 's':
+            out.append('s:' + ','.join(map(str, t[1])))
+        elif k == 'id':
+            out.append('id:' + t[1])
+        else:
+            out.append(k)
+    return ' '.join(out)
+
+
+def print_re(r, min_level=0, redundant=None):
+    """Print with the fewest parentheses the grammar allows; `redundant` (a random.Random) adds
+    extra parentheses at random."""
+    return render_tokens(print_tokens(r, min_level, redundant))
 
 
 # ---------------------------------------------------------------------------------------------
